@@ -453,3 +453,326 @@ pub fn h_orswot_merge(inp: &Inp) -> u8 {
         1
     }
 }
+
+//@ harness props=C07,C04,C16 covers=3 name=Orswot op generation from reads: add/add_all/rm/rm_all built from read(), read_ctx(), contains() contexts on SPEC(U,K) are exactly the universe ops (fresh next dot, remove context = what was observed)
+#[no_mangle]
+pub fn h_orswot_gen(inp: &Inp) -> u8 {
+    let mut i = In::new(inp);
+    let u = any_uni(&mut i);
+    let k = any_know(&mut i, &u);
+    let flip = i.bool();
+    let a = i.below(NA);
+    let m = i.below(NM);
+    let mask = i.below(1 << NM);
+    if !i.ok {
+        return 2;
+    }
+    let s = spec(&u, &k, flip);
+    let seen = k.seen[a as usize];
+    // add context: next unused dot of the actor, not covered by the replica clock
+    let actx = s.read().derive_add_ctx(a);
+    if actx.dot.actor != a || actx.dot.counter != seen + 1 {
+        return 0;
+    }
+    if !vc_is(&actx.clock, |x| if x == a { seen + 1 } else { k.seen[x as usize] }) {
+        return 0;
+    }
+    if s.clock().get(&a) >= actx.dot.counter {
+        return 0;
+    }
+    match s.add(m, actx) {
+        Op::Add { dot, members } => {
+            if dot != Dot::new(a, seen + 1) || members.len() != 1 || members[0] != m {
+                return 0;
+            }
+        }
+        _ => return 0,
+    }
+    match s.add_all(mask_vec(mask), s.read_ctx().derive_add_ctx(a)) {
+        Op::Add { dot, members } => {
+            if dot != Dot::new(a, seen + 1) || members != mask_vec(mask) {
+                return 0;
+            }
+        }
+        _ => return 0,
+    }
+    // its own op is valid at its origin
+    if s.validate_op(&s.add(m, s.read().derive_add_ctx(a))).is_err() {
+        return 0;
+    }
+    // remove contexts: element context = surviving witnesses (empty iff absent), never above the add context
+    let c = s.contains(&m);
+    if c.val != present(&u, &k, m) || c.rm_clock.is_empty() == c.val {
+        return 0;
+    }
+    if !(c.rm_clock <= c.add_clock) {
+        return 0;
+    }
+    let was_present = c.val;
+    match s.rm(m, c.derive_rm_ctx()) {
+        Op::Rm { clock, members } => {
+            if !vc_is(&clock, |x| witness(&u, &k, m, x as usize)) || members.len() != 1 || members[0] != m {
+                return 0;
+            }
+        }
+        _ => return 0,
+    }
+    match s.rm_all(mask_vec(mask), s.read().derive_rm_ctx()) {
+        Op::Rm { clock, members } => {
+            if !vc_is(&clock, |x| k.seen[x as usize]) || members != mask_vec(mask) {
+                return 0;
+            }
+        }
+        _ => return 0,
+    }
+    if s.validate_op(&s.rm(m, s.contains(&m).derive_rm_ctx())).is_err() {
+        return 0;
+    }
+    if !was_present {
+        3
+    } else {
+        1
+    }
+}
+
+//@ harness props=C16 covers=3,4 name=Orswot validate_op on SPEC(U,K): Ok for every add whose dot does not skip a counter (next, duplicate, old) and for every remove; DotRange exactly for a gap
+#[no_mangle]
+pub fn h_orswot_validate_op(inp: &Inp) -> u8 {
+    let mut i = In::new(inp);
+    let u = any_uni(&mut i);
+    let k = any_know(&mut i, &u);
+    let a = i.below(NA);
+    let c = 1 + i.below(NC as u8 + 1) as u64;
+    let mask = i.below(1 << NM);
+    let ctx = any_vclock(&mut i);
+    if !i.ok {
+        return 2;
+    }
+    let s = spec(&u, &k, false);
+    let seen = k.seen[a as usize];
+    let op = Op::Add { dot: Dot::new(a, c), members: mask_vec(mask) };
+    match s.validate_op(&op) {
+        Ok(()) => {
+            if c > seen + 1 {
+                return 0;
+            }
+        }
+        Err(e) => {
+            if c <= seen + 1 || e.actor != a || e.counter_range.start != seen + 1 || e.counter_range.end != c {
+                return 0;
+            }
+        }
+    }
+    if s.validate_op(&Op::Rm { clock: ctx, members: mask_vec(mask) }).is_err() {
+        return 0;
+    }
+    if c > seen + 1 {
+        3
+    } else if c <= seen {
+        4
+    } else {
+        1
+    }
+}
+
+/// some dot is the current witness of member m in x and of a different member in y
+fn double_spent(x: &Set, y: &Set) -> bool {
+    let mut r = false;
+    let mut m = 0u8;
+    while m < NM {
+        let mut n = 0u8;
+        while n < NM {
+            if m != n {
+                let mut a = 0u8;
+                while a < NA {
+                    let c = vget(&x.contains(&m).rm_clock, a);
+                    if c != 0 && c == vget(&y.contains(&n).rm_clock, a) {
+                        r = true;
+                    }
+                    a += 1;
+                }
+            }
+            n += 1;
+        }
+        m += 1;
+    }
+    r
+}
+
+/// known-finding role (D4): the flagged dot belongs to ONE add that carried several members (`add_all`),
+/// i.e. correct use of the library's own API
+fn kf_add_all(u: &Uni) -> bool {
+    let mut r = false;
+    let mut a = 0;
+    while a < NAU {
+        let mut c = 0;
+        while c < NCU {
+            let m = u.mem[a][c];
+            if (c as u64) < u.issued[a] && m & (m.wrapping_sub(1)) != 0 {
+                r = true;
+            }
+            c += 1;
+        }
+        a += 1;
+    }
+    r
+}
+
+//@ harness props=C17 covers=3 kf=201 name=Orswot validate_merge under correct use: Ok for every pair SPEC(U,K1), SPEC(U,K2) and the same verdict in both directions
+#[no_mangle]
+pub fn h_orswot_validate_merge(inp: &Inp) -> u8 {
+    let mut i = In::new(inp);
+    let u = any_uni(&mut i);
+    let k1 = any_know(&mut i, &u);
+    let k2 = any_know(&mut i, &u);
+    if !i.ok {
+        return 2;
+    }
+    let x = spec(&u, &k1, false);
+    let y = spec(&u, &k2, true);
+    let v1 = x.validate_merge(&y).is_err();
+    let v2 = y.validate_merge(&x).is_err();
+    if v1 != v2 {
+        return 0;
+    }
+    // flags exactly the double-spent dots (soundness of the scan)
+    if v1 != double_spent(&x, &y) {
+        return 0;
+    }
+    if v1 {
+        // correct use must be accepted
+        if kf_add_all(&u) {
+            return 201;
+        }
+        return 0;
+    }
+    if x.read().val.len() > 0 && y.read().val.len() > 0 {
+        3
+    } else {
+        1
+    }
+}
+
+//@ harness props=C17 covers=3,4 name=Orswot validate_merge under misuse (one actor id driven independently at two replicas): error in both directions whenever a dot is the current witness of different members, Ok otherwise
+#[no_mangle]
+pub fn h_orswot_validate_merge_misuse(inp: &Inp) -> u8 {
+    let mut i = In::new(inp);
+    let u1 = any_uni(&mut i);
+    let k1 = any_know(&mut i, &u1);
+    let u2 = any_uni(&mut i);
+    let k2 = any_know(&mut i, &u2);
+    if !i.ok {
+        return 2;
+    }
+    let x = spec(&u1, &k1, false);
+    let y = spec(&u2, &k2, false);
+    let v1 = x.validate_merge(&y).is_err();
+    let v2 = y.validate_merge(&x).is_err();
+    let ds = double_spent(&x, &y);
+    if v1 != v2 || v1 != ds {
+        return 0;
+    }
+    if let Err(crate::orswot::Validation::DoubleSpentDot { dot, our_member, their_member }) = x.validate_merge(&y) {
+        // the reported dot really is double spent
+        if our_member == their_member
+            || vget(&x.contains(&our_member).rm_clock, dot.actor) != dot.counter
+            || vget(&y.contains(&their_member).rm_clock, dot.actor) != dot.counter
+        {
+            return 0;
+        }
+    }
+    if ds {
+        3
+    } else if !x.read().val.is_empty() && !y.read().val.is_empty() {
+        4
+    } else {
+        1
+    }
+}
+
+//@ harness props=C18 covers=3,4 name=Orswot reset_remove(c) on SPEC(U,K) for any clock c (below, above, concurrent): clock, member witnesses and pending contexts lose exactly the covered dots; emptied members / pending removes vanish; empty clock no-op; own clock empties; c1 then c2 = join; idempotent
+#[no_mangle]
+pub fn h_orswot_reset_remove(inp: &Inp) -> u8 {
+    use crate::ResetRemove;
+    let mut i = In::new(inp);
+    let u = any_uni(&mut i);
+    let k = any_know(&mut i, &u);
+    let flip = i.bool();
+    let c = any_vclock(&mut i);
+    let c2 = any_vclock(&mut i);
+    if !i.ok {
+        return 2;
+    }
+    let s = spec(&u, &k, flip);
+    let mut r = s.clone();
+    r.reset_remove(&c);
+    let keep = |v: u64, a: u8| if v > vget(&c, a) { v } else { 0 };
+    if !vc_is(&r.clock, |a| keep(k.seen[a as usize], a)) {
+        return 0;
+    }
+    let mut m = 0u8;
+    let mut emptied = false;
+    while m < NM {
+        let got = r.contains(&m);
+        if !vc_is(&got.rm_clock, |a| keep(witness(&u, &k, m, a as usize), a)) {
+            return 0;
+        }
+        if got.val == got.rm_clock.is_empty() {
+            return 0;
+        }
+        if present(&u, &k, m) && !got.val {
+            emptied = true;
+        }
+        m += 1;
+    }
+    // pending removes: context minus covered dots, dropped when nothing is left
+    let mut want: HashMap<Vc, HashSet<u8>> = HashMap::new();
+    let mut q = 0;
+    while q < NR {
+        if pending(&u, &k, q) {
+            let ctx = vc_from(|a| keep(u.rm_ctx[q][a as usize], a));
+            if !ctx.is_empty() {
+                let set = want.entry(ctx).or_default();
+                let mut m = 0u8;
+                while m < NM {
+                    if (u.rm_mem[q] >> m) & 1 == 1 {
+                        set.insert(m);
+                    }
+                    m += 1;
+                }
+            }
+        }
+        q += 1;
+    }
+    if r.deferred != want {
+        return 0;
+    }
+    // algebra
+    let mut r2 = r.clone();
+    r2.reset_remove(&c);
+    if r2 != r {
+        return 0;
+    }
+    let mut e = s.clone();
+    e.reset_remove(&VClock::new());
+    if e != s {
+        return 0;
+    }
+    let mut x = s.clone();
+    x.reset_remove(&c);
+    x.reset_remove(&c2);
+    let mut j = c.clone();
+    j.merge(c2.clone());
+    let mut y = s.clone();
+    y.reset_remove(&j);
+    if x != y {
+        return 0;
+    }
+    if emptied {
+        3
+    } else if pending(&u, &k, 0) {
+        4
+    } else {
+        1
+    }
+}
